@@ -195,3 +195,13 @@ impl PrivateExtensionList {
         Self::try_from_iter(iter)
     }
 }
+
+/// Verification hook (off unless built with `--cfg unic_locale_verif`): builds a list holding
+/// exactly the given tag vector, so a harness can start from an arbitrary state that satisfies
+/// the representation invariant (sorted, normalised tags; duplicates allowed).
+#[cfg(unic_locale_verif)]
+impl PrivateExtensionList {
+    pub fn verif_from_tags(tags: Vec<TinyStr8>) -> Self {
+        Self(tags)
+    }
+}
